@@ -401,6 +401,27 @@ def one_document(ctx, doc, fmts, scratch, fails, model_ops, pending, doc_id):
                             {"deser": "deserialize(format=%r)" % fmt, "read_fmt": "prov.read(format=%r)" % fmt, "read_auto": "prov.read() without a format"}[mode],
                             dest, src, what), case))
                     cells.append(({"dest": dest, "src": src, "mode": mode}, {"result": lab, "at_end": at_end}, case))
+                    if src == "path" and lab is not None and lab == ref_label:
+                        # the caller owns what it was given: changing it must not change what the same file reads as next time
+                        try:
+                            got.add_namespace("mutc16", "http://mutation.example/c16/")
+                            got.entity("mutc16:added-after-reading")
+                            with warnings.catch_warnings():
+                                warnings.simplefilter("ignore")
+                                logging.disable(logging.CRITICAL)
+                                try:
+                                    again = (ProvDocument.deserialize(format=fmt, **kw) if mode == "deser" else
+                                             prov.read(rsrc, format=fmt) if mode == "read_fmt" else prov.read(rsrc))
+                                finally:
+                                    logging.disable(logging.NOTSET)
+                            lab2 = digest(again)
+                        except Exception as e:  # noqa
+                            lab2 = "raised %r" % (e,)
+                        ctx.count("path-read-again-after-change")
+                        if lab2 != ref_label:
+                            fails.append(Failure("oracle", None, "the same unchanged file, read a second time (%s) after the document from the first "
+                                                 "reading had been given one more entity, no longer gives the written document (%s)" % (mode, lab2),
+                                                 dict(case, reread=True)))
         op = {"op": "io_case", "fmt": fmt, "text": written["ret"][1], "tables": tables,
               "cases": [{"dest": d_} for d_ in DESTS] + [c[0] for c in cells]}
         if fmt == "xml":
